@@ -766,7 +766,7 @@ def chunks(tier, seed):
     tries = 0
     while i < n and tries < 20 * n:
         tries += 1
-        text = mutgen.gen_doc_text(rng, max_depth=rng.choice([2, 3, 3]))
+        text = mutgen.gen_doc_text(rng, max_depth=rng.choice([2, 3, 3]), int_keys=True)
         try:
             data = mutgen.load(text)
         except Exception:  # noqa
